@@ -205,3 +205,89 @@ func embeddedScenario() *scenario {
 	}
 	return sc
 }
+
+// The recipients scenario: send_broadcast and start_session actions whose definition lists 3..9 FIXED contacts, URNs and
+// groups (slices decoded from JSON with spare capacity) plus legacy_vars that evaluate to something different in every
+// session (@contact.uuid, @urns.tel, a group name).  Eight scripts, one contact each: whatever an action appends for
+// one session must never show up in the shared definition or in another session's broadcast_created /
+// session_triggered events.
+func recipientsScenario() *scenario {
+	ru := func(n int) string { return fmt.Sprintf("c0900000-0000-4000-9000-%012d", n) }
+	flowMain, flowOther := ru(10), ru(11)
+	groupA, groupB, groupC := ru(1), ru(2), ru(3)
+	channel := ru(5)
+	contacts := func(n, base int) []obj {
+		l := make([]obj, n)
+		for i := range l {
+			l[i] = obj{"uuid": ru(base + i), "name": fmt.Sprintf("Fixed %d", base+i)}
+		}
+		return l
+	}
+	urnsN := func(n, base int) []string {
+		l := make([]string, n)
+		for i := range l {
+			l[i] = fmt.Sprintf("tel:+1202555%04d", base+i)
+		}
+		return l
+	}
+	groups := []obj{{"uuid": groupA, "name": "Alpha"}, {"uuid": groupB, "name": "Beta"}, {"uuid": groupC, "name": "Gamma"}}
+	legacy := []string{"@contact.uuid", "@urns.tel", "Gamma", "@(\"tel:+1303555\" & text_slice(contact.uuid, 32))"}
+	broadcast := func(id, nc, nu int) obj {
+		return obj{"uuid": ru(id), "type": "send_broadcast", "text": "Hello from @contact.name", "groups": groups[:2],
+			"contacts": contacts(nc, 1000+id*20), "urns": urnsN(nu, id*20), "legacy_vars": legacy}
+	}
+	start := func(id, nc, nu int) obj {
+		return obj{"uuid": ru(id), "type": "start_session", "flow": obj{"uuid": flowOther, "name": "C09 Other"}, "groups": groups[:3],
+			"contacts": contacts(nc, 2000+id*20), "urns": urnsN(nu, 500+id*20), "legacy_vars": legacy, "create_contact": false}
+	}
+	mainFlow := obj{
+		"uuid": flowMain, "name": "C09 Recipients", "spec_version": "13.6.0", "language": "eng", "type": "messaging",
+		"revision": 1, "expire_after_minutes": 60, "localization": obj{},
+		"nodes": []obj{
+			{
+				"uuid":    ru(100),
+				"actions": []obj{broadcast(101, 3, 3), start(102, 5, 6), broadcast(103, 7, 9), start(104, 9, 3), broadcast(105, 6, 5)},
+				"router": obj{"type": "switch", "operand": "@input.text", "result_name": "Again",
+					"wait":                  obj{"type": "msg"},
+					"default_category_uuid": ru(121),
+					"categories":            []obj{{"uuid": ru(121), "name": "All", "exit_uuid": ru(141)}},
+					"cases":                 []obj{}},
+				"exits": []obj{{"uuid": ru(141), "destination_uuid": ru(150)}},
+			},
+			{
+				"uuid":    ru(150),
+				"actions": []obj{start(151, 3, 7), broadcast(152, 5, 3), start(153, 6, 9), broadcast(154, 9, 6)},
+				"exits":   []obj{{"uuid": ru(161)}},
+			},
+		},
+	}
+	otherFlow := obj{
+		"uuid": flowOther, "name": "C09 Other", "spec_version": "13.6.0", "language": "eng", "type": "messaging",
+		"revision": 1, "expire_after_minutes": 0, "localization": obj{},
+		"nodes": []obj{{"uuid": ru(300), "actions": []obj{{"uuid": ru(301), "type": "send_msg", "text": "Other"}}, "exits": []obj{{"uuid": ru(321)}}}},
+	}
+	assetsJSON := obj{
+		"flows":    []obj{mainFlow, otherFlow},
+		"groups":   []obj{{"uuid": groupA, "name": "Alpha"}, {"uuid": groupB, "name": "Beta"}, {"uuid": groupC, "name": "Gamma"}},
+		"channels": []obj{{"uuid": channel, "name": "Android", "address": "+17036975131", "schemes": []string{"tel"}, "roles": []string{"send", "receive"}, "country": "US"}},
+	}
+	raw, err := json.MarshalIndent(assetsJSON, "", " ")
+	if err != nil {
+		panic(err)
+	}
+	env := obj{"allowed_languages": []string{"eng"}, "date_format": "YYYY-MM-DD", "time_format": "hh:mm", "timezone": "America/Los_Angeles"}
+	sc := &scenario{Name: "recipients", Assets: raw}
+	for i := 0; i < 8; i++ {
+		c := obj{"uuid": fmt.Sprintf("c09ec1%02d-0000-4000-a000-%012d", i, 7000+i), "id": 7000 + i, "name": fmt.Sprintf("Caller %d", i), "language": "eng", "status": "active",
+			"created_on": "2000-01-01T00:00:00.000000000-00:00", "urns": []string{fmt.Sprintf("tel:+1206555%04d", 100+i)}}
+		tb, _ := json.Marshal(obj{"type": "manual", "flow": obj{"uuid": flowMain, "name": "C09 Recipients"}, "contact": c, "environment": env,
+			"triggered_on": "2000-01-01T00:00:00.000000000-00:00"})
+		rb, _ := json.Marshal(obj{"type": "msg", "resumed_on": "2000-01-01T00:00:00.000000000-00:00",
+			"msg": obj{"uuid": ru(900 + i), "text": fmt.Sprintf("go %d", i), "urn": fmt.Sprintf("tel:+1206555%04d", 100+i), "channel": obj{"uuid": channel, "name": "Android"}}})
+		sc.Scripts = append(sc.Scripts, script{Name: fmt.Sprintf("caller_%d", i), Trigger: tb, Resumes: []json.RawMessage{rb}})
+	}
+	if err := sc.derive(); err != nil {
+		panic(err)
+	}
+	return sc
+}
